@@ -32,6 +32,10 @@ OPFN = {"add": _op.add, "subtract": _op.sub, "multiply": _op.mul, "divide": _op.
         "greater_equal": _op.ge, "equal": _op.eq, "not_equal": _op.ne}
 
 SCALARS = {"pybool": True, "pyint": 3, "pyfloat": 1.5, "pystr": "a"}
+# NumPy scalars: each behaves as a 0-d array of its dtype (np.float64 is also a Python float)
+NPSCALARS = {"np:float64": np.float64(1.5), "np:float32": np.float32(1.5), "np:int64": np.int64(3), "np:int32": np.int32(3),
+             "np:uint8": np.uint8(3), "np:bool": np.bool_(True), "np:utf8": np.str_("a"), "np:int8": np.int8(3), "np:uint64": np.uint64(3)}
+SCALARS.update(NPSCALARS)
 
 
 def _dt_out(fn):
